@@ -480,8 +480,20 @@ func registerIntrinsics(e *Engine) {
 	r["fmt.Printf"] = func(e *Engine, fr *frame, args []Value, site ssa.CallInstruction) Value {
 		format := mustStr(e, args[0], "Printf format")
 		s := e.sprintf(format, e.strSlice(args[1]))
-		e.stdout = append(e.stdout, s)
+		e.writeStdout(s)
 		return tuple{int64(strLen(s)), iface{}}
+	}
+	r["fmt.Println"] = func(e *Engine, fr *frame, args []Value, site ssa.CallInstruction) Value {
+		var out Value = ""
+		for i, x := range e.strSlice(args[0]) {
+			if i > 0 {
+				out = e.strCat(out, " ")
+			}
+			out = e.strCat(out, e.formatVerb('v', false, x))
+		}
+		out = e.strCat(out, "\n")
+		e.writeStdout(out)
+		return tuple{int64(strLen(out)), iface{}}
 	}
 
 	// ---- strings / strconv / unicode / math ----
@@ -608,6 +620,20 @@ func registerIntrinsics(e *Engine) {
 			return unicode.IsDigit(rune(args[0].(int64)))
 		}
 		return e.lowerBool(e.runeInTable(args[0].(*smt.Term), unicode.Digit))
+	}
+	for name, tf := range map[string]struct {
+		f   func(rune) bool
+		tab *unicode.RangeTable
+	}{"unicode.IsLetter": {unicode.IsLetter, unicode.Letter}, "unicode.IsUpper": {unicode.IsUpper, unicode.Upper},
+		"unicode.IsLower": {unicode.IsLower, unicode.Lower}, "unicode.IsNumber": {unicode.IsNumber, unicode.Number},
+		"unicode.IsPunct": {unicode.IsPunct, unicode.Punct}} {
+		tf := tf
+		r[name] = func(e *Engine, fr *frame, args []Value, site ssa.CallInstruction) Value {
+			if !isSym(args[0]) {
+				return tf.f(rune(args[0].(int64)))
+			}
+			return e.lowerBool(e.runeInTable(args[0].(*smt.Term), tf.tab))
+		}
 	}
 	r["math.Round"] = func(e *Engine, fr *frame, args []Value, site ssa.CallInstruction) Value {
 		if f, ok := args[0].(float64); ok {
@@ -1029,4 +1055,18 @@ func (e *Engine) findMethod(t types.Type, name string) *ssa.Function {
 		}
 	}
 	return nil
+}
+
+// writeStdout appends to whatever file object the program's os.Stdout variable holds now.
+func (e *Engine) writeStdout(s Value) {
+	g := e.prog.Pkgs["os"].Var("Stdout")
+	cell, ok := e.globals[g]
+	if !ok {
+		cell = e.globalCell(g)
+	}
+	f := e.fileOf(*cell)
+	f.content = append(append([]Value{}, f.content...), e.strToByteVals(s)...)
+	if f.std == "stdout" {
+		e.stdout = append(e.stdout, s)
+	}
 }
